@@ -297,10 +297,10 @@ Definition json_value (d : string) : option jv :=
   | None => None
   end.
 
-(* printable ASCII without the characters of objects and escapes *)
+(* printable ASCII (and the tab) without the characters of objects and escapes *)
 Definition json_plain (d : string) : bool :=
   forallb (fun c => let n := N_of_ascii c in
-                    ((32 <=? n) && (n <=? 126))%N && negb (ch c 123 || ch c 125 || ch c 92 || ch c 58))
+                    (((32 <=? n) && (n <=? 126)) || (n =? 9))%N && negb (ch c 123 || ch c 125 || ch c 92 || ch c 58))
           (list_ascii_of_string d).
 
 Fixpoint elem_is_string (t : ftype) : bool :=
